@@ -154,14 +154,30 @@ ExpectI(sc, h, i, tau) ==
 
 SameSlot(c, x) == c.de = x.de /\ c.da = x.da /\ c.src = x.src /\ c.se = x.se
 SetdFor(h, s) == {d \in h.setd : d.dst = s}
+\* The inputs of a step have two writers: connections (C03) and set_data calls of
+\* simulators that s serves asynchronous requests for (C16).  An input record is
+\* explained by a connection of its slot carrying the expected value or by a pending
+\* set_data value of its slot; what is attributed to which property:
+\*   C03  every record that is NOT explained and whose source is not a requester of s,
+\*        and every connection with a definite expectation has a record;
+\*   C16  every record from a requester of s that no connection explains is a pending
+\*        set_data value (so a value is not delivered twice / not invented), and every
+\*        pending set_data value is in the inputs of this -- the next -- step.
+ConnExplains(sc, s, x, Exp(_)) == \E i \in InConns(sc, s) : SameSlot(Conn(sc, i), x) /\ Exp(i) \in {x.val, "ANY"}
+SetdExplains(h, s, x) == \E d \in SetdFor(h, s) : d.de = x.de /\ d.da = x.da /\ d.src = x.src /\ d.se = x.se /\ d.val = x.val
+Requester(sc, s, x) == \E i \in CIdx(sc) : Conn(sc, i).async /\ Conn(sc, i).src = s /\ Conn(sc, i).dst = x.src
 InputsOk(sc, h, s, tau, inp, Exp(_)) ==
-  /\ \A x \in inp :
-        \/ \E i \in InConns(sc, s) : SameSlot(Conn(sc, i), x) /\ Exp(i) \in {x.val, "ANY"}
-        \/ \E d \in SetdFor(h, s) : d.de = x.de /\ d.da = x.da /\ d.src = x.src /\ d.se = x.se /\ d.val = x.val
+  /\ \A x \in inp : ConnExplains(sc, s, x, Exp) \/ SetdExplains(h, s, x) \/ Requester(sc, s, x)
   /\ \A i \in InConns(sc, s) : Exp(i) \notin {"ANY", "ABSENT"} =>
         \E x \in inp : SameSlot(Conn(sc, i), x)
+SetdOk(sc, h, s, inp, Exp(_)) ==
+  /\ \A x \in inp : Requester(sc, s, x) => (ConnExplains(sc, s, x, Exp) \/ SetdExplains(h, s, x))
   /\ \A d \in SetdFor(h, s) :
         \E x \in inp : d.de = x.de /\ d.da = x.da /\ d.src = x.src /\ d.se = x.se
+                        /\ (d.val = x.val \/ ConnExplains(sc, s, x, Exp))
+C16deliv(sc, h, s, tau, inp) ==
+  \/ SetdOk(sc, h, s, inp, LAMBDA i : Expect(sc, h, i, tau))
+  \/ (HasSubsteps(sc) /\ SetdOk(sc, h, s, inp, LAMBDA i : ExpectI(sc, h, i, tau)))
 C03ok(sc, h, s, tau, inp)  == InputsOk(sc, h, s, tau, inp, LAMBDA i : Expect(sc, h, i, tau))
 C03okI(sc, h, s, tau, inp) == InputsOk(sc, h, s, tau, inp, LAMBDA i : ExpectI(sc, h, i, tau))
 
@@ -231,6 +247,7 @@ RefSB(sc, h, ev) ==
               ELSE Viol("C03_inputs", <<s, tau, inp, [i \in InConns(sc, s) |-> Expect(sc, h, i, tau)], SetdFor(h, s)>>))
         \o Cond(~CauseOn(sc) \/ RT(sc).on \/ C07ok(sc, h, s, t, ev.m, cs), "C07_max_advance", <<s, t, ev.m, h.prom[s], cs>>)
         \o Cond(C16order(sc, h, s, tau), "C16_async_order", <<s, tau, h.infl>>)
+        \o Cond(~DataOn(sc) \/ C16deliv(sc, h, s, tau, inp), "C16_set_data_not_delivered_exactly_once_in_next_step", <<s, tau, inp, SetdFor(h, s)>>)
         \o Cond(C10ok(sc, h, s, tau), "C10_lazy", <<s, tau, h.dem, h.infl>>)
         \o Cond(~OverLoop(sc, tau), "C09_substep_beyond_bound_executed", <<s, tau>>)
         \o Cond(h.mal = None \/ h.mal[1] # s, "C13_step_after_malformed_reply", <<s, t, h.mal>>)
